@@ -60,6 +60,11 @@ func LayerConvertWithLayerAndCommonOptsFunc(opts map[digest.Digest][]estargz.Opt
 // Otherwise "containerd.io/snapshot/stargz/toc.digest" annotation will be lost,
 // because the Docker media type does not support layer annotations.
 func LayerConvertFunc(opts ...estargz.Option) converter.ConvertFunc {
+	// explicitly copy the incoming opts parameter: the returned function is called concurrently for the
+	// layers of an image and must not append to a backing array shared with the caller or other calls
+	copiedOpts := make([]estargz.Option, len(opts))
+	copy(copiedOpts, opts)
+
 	return func(ctx context.Context, cs content.Store, desc ocispec.Descriptor) (*ocispec.Descriptor, error) {
 		if !images.IsLayerType(desc.MediaType) {
 			// No conversion. No need to return an error here.
@@ -80,7 +85,7 @@ func LayerConvertFunc(opts ...estargz.Option) converter.ConvertFunc {
 		}
 		defer ra.Close()
 		sr := io.NewSectionReader(ra, 0, desc.Size)
-		blob, err := estargz.Build(sr, append(opts, estargz.WithContext(ctx))...)
+		blob, err := estargz.Build(sr, append(copiedOpts, estargz.WithContext(ctx))...)
 		if err != nil {
 			return nil, err
 		}
